@@ -47,7 +47,9 @@ E2E_WORLD = {
             {'s': [{'t': 'x.y'}, {'t': 'A'}, {'t': 'a b'}], 'layer': 'LC'},
         ]}}]}
 LAYER_PATS = ['LA', 'LB', 'L', 'selw', 'Unit', 'layer', 'LA$', '^zope', 'L[BC]',
-              '', '!LA', '!Unit', '!layers', '!L[AB]', '!', '!^selw']
+              '', '!LA', '!Unit', '!layers', '!L[AB]', '!', '!^selw',
+              # a layer's exact dotted name given as a (positive) pattern: it is a pattern like any other
+              'selw_layers.LA', 'selw_layers.LB', 'zope.testrunner.layer.UnitTests']
 
 MOD_WORLD = {
     'layers': [{'name': 'LA', 'bases': []}],
@@ -285,7 +287,9 @@ def _gen_e2e(rng):
               [''], ['!'], ['x.y', 'c']]:
         fixed.append({'t': t})
     for lp in [['LA'], ['!LA'], ['L[BC]', 'Unit'], ['!Unit'], ['LA', '!LC'],
-               ['!LA', '!LB'], ['layer'], ['!layers'], ['']]:
+               ['!LA', '!LB'], ['layer'], ['!layers'], [''],
+               ['selw_layers.LA', 'selw_layers.LB', '!LA'], ['selw_layers.LB', '!L[AB]'],
+               ['zope.testrunner.layer.UnitTests', '!Unit', 'LA']]:
         fixed.append({'layer': lp})
     for o in fixed:
         yield {'kind': 'e2e', 'world': E2E_WORLD, 'opts': o}
